@@ -163,6 +163,11 @@ impl From<core::time::Duration> for Duration {
 
 impl From<Duration> for core::time::Duration {
     fn from(x: Duration) -> Self {
+        // core::time::Duration cannot be negative: a negative DDS duration is an
+        // interval that has already elapsed
+        if x.sec < 0 {
+            return core::time::Duration::ZERO;
+        }
         core::time::Duration::new(x.sec as u64, x.nanosec)
     }
 }
